@@ -113,6 +113,9 @@ static void verif_fail(const char* msg) { fprintf(stderr, "VERIF_ASSERT failed: 
   static void vec_##TAG##_reserve(vec_##TAG* v, size_t n) { if (n > VERIF_VEC_MAXN(T)) { verif_exc = EXC_std_length_error; } } \
   static void vec_##TAG##_resize(vec_##TAG* v, size_t n) { if (n > VERIF_VEC_MAXN(T)) { verif_exc = EXC_std_length_error; return; } \
     VERIF_ASSUME(n <= v->cap); v->size = n; } \
+  static void vec_##TAG##_resize_val(vec_##TAG* v, size_t n, T x) { size_t old = v->size; vec_##TAG##_resize(v, n); \
+    /* every appended element is a copy of x: stated for the ghost positions */ \
+    if (verif_exc == 0 && verif_g >= old && verif_g < n) v->data[verif_g] = x; if (verif_exc == 0 && verif_g2 >= old && verif_g2 < n) v->data[verif_g2] = x; } \
   static void vec_##TAG##_push_back(vec_##TAG* v, T x) { VERIF_ASSUME(v->size < v->cap); v->data[v->size] = x; v->size++; } \
   static void vec_##TAG##_insert_end(vec_##TAG* v, const T* first, const T* last) { \
     VERIF_ASSERT(__CPROVER_same_object(first, last) && first <= last, "model: vector::insert range is valid"); \
@@ -153,6 +156,8 @@ static void* verif_alloc(size_t n, size_t sz)
   static void vec_##TAG##_resize(vec_##TAG* v, size_t n) { if (n > VERIF_VEC_MAXN(T)) { verif_exc = EXC_std_length_error; return; } \
     VERIF_ASSUME(n <= VERIF_CAP_BYTES / sizeof(T)); VERIF_NATIVE_RESERVE_GUARD(n, T) vec_##TAG##_grow(v, n); \
     for (size_t i = v->size; i < n; ++i) VERIF_MODEL_LOOP { memset(&v->data[i], 0, sizeof(T)); } v->size = n; } \
+  static void vec_##TAG##_resize_val(vec_##TAG* v, size_t n, T x) { size_t old = v->size; vec_##TAG##_resize(v, n); \
+    if (verif_exc == 0) for (size_t i = old; i < n; ++i) VERIF_MODEL_LOOP { v->data[i] = x; } } \
   static void vec_##TAG##_push_back(vec_##TAG* v, T x) { vec_##TAG##_grow(v, v->size + 1); v->data[v->size] = x; v->size++; } \
   static void vec_##TAG##_insert_end(vec_##TAG* v, const T* first, const T* last) { size_t n = (size_t)(last - first); \
     vec_##TAG##_grow(v, v->size + n); for (size_t i = 0; i < n; ++i) VERIF_MODEL_LOOP { v->data[v->size + i] = first[i]; } v->size += n; } \
